@@ -137,7 +137,7 @@ func crashOne(t *testing.T, tape *verifsim.Tape, tier string, keepLog bool, k in
 			// the target operation
 			for try := 0; ; try++ {
 				op = drawStoreOp(existingNames(snap), false)
-				if op.kind != "blob" {
+				if op.kind != "blob" && op.kind != "blob-mismatch" {
 					break
 				}
 				if try > 8 { // an exhausted replay tape draws zeros for ever
